@@ -259,6 +259,17 @@ Definition wire_of_out (o : out) : wire :=
   | OutBufOverflow => mk 4 [] []
   | Restart => mk 5 [] []
   end.
+(* 3 BOOTRR <n> :   only as the first line: the history starts with next_rr_id = n instead of 0 (harness only: lets the
+   comparison with the C code reach the 32-bit wrap of the counter; the theorems about `init` do not use it) *)
+Definition init_rr (n : Z) : st :=
+  {| next_rr := u32 n; outq := []; ob := {| osize := 0; odata := [] |}; espbuf := []; halted := false |}.
+Definition start_of (ws : list wire) : st * list wire :=
+  match ws with
+  | (k, a, _) :: r => if k =? 3 then (init_rr (nth 0 a 0), r) else (init, ws)
+  | [] => (init, [])
+  end.
+Definition is_boot (w : wire) : bool := match w with (k, _, _) => k =? 3 end.
 Definition run_wire (silent : bool) (ws : list wire) : list wire :=
-  map wire_of_out (outs_of (snd (run_trace silent init (map ev_of_wire ws)))).
+  let '(s0, r) := start_of ws in
+  map wire_of_out (outs_of (snd (run_trace silent s0 (map ev_of_wire (filter (fun w => negb (is_boot w)) r))))).
 Definition main_wire (ws : list wire) : list wire := run_wire CURRENT_SILENT ws.
